@@ -14,7 +14,11 @@ RULE = ('excproxy: EVERY builtin exception class (enumerated from builtins at ru
         'inside reference evaluation; the slot table given to the model is measured (getset / member descriptors over the '
         'MRO). Observed on the caught object: type relation, isinstance, every public attribute of the original, args, '
         'traceback identity, str(). non-trivial = a class with C-slot-backed attributes or required constructor arguments, '
-        'raised at depth >= 2.')
+        'raised at depth >= 2. Generated: exception-group TREES over Exception and non-Exception leaves (a group with a '
+        'non-Exception leaf, a BaseExceptionGroup subclass and user BaseException classes are not Exceptions: they must reach '
+        'the caller as the very object raised, with str / args / notes as before the call). Engine served-attrs '
+        '(implementation only): classes that SERVE their public fields through the attribute protocol (__getattr__ over an '
+        'instance payload, a __slots__ payload, a mixin, the args or a class table; __getattribute__; non-data descriptors).')
 TRUSTED_BASE = [
     'Coq 8.16.1 kernel; vm_compute in the correspondence run',
     'hand-written model coq/Model/ExcProxy.v of gin/utils.py:21-60 (attribute resolution: type-level data descriptor, instance dict, __getattr__ forwarding); tied to /repo by harness/props/c17.py',
@@ -124,6 +128,23 @@ class ApiError(Exception):
 class NotFound(ApiError, status=404):
   pass
 
+class Abort(BaseException):
+  """a user control-flow exception: not an Exception"""
+  def __init__(self, reason, code=0):
+    super().__init__(reason)
+    self.code = code
+
+class Cancelled(BaseException):
+  __slots__ = ('token',)
+  def __init__(self, token=None):
+    super().__init__()
+    self.token = token
+
+class Nursery(BaseExceptionGroup):
+  """a BaseExceptionGroup subclass: not an Exception even when every leaf is one"""
+  def derive(self, excs):
+    return Nursery(self.message, excs)
+
 class Unsupported(TypeError):
   def __init__(self, *payload):
     super().__init__(*payload)
@@ -153,6 +174,7 @@ class NeedsArgs(ValueError):
 USER_ARGS = {'NeedsArgs': "(7, 'boom')", 'NeedsNewArgs': "(1, 2)", 'Slotted': "([1, 2],)", 'CustomStr': "('v',)",
              'WithProperty': "(21,)", 'OsChild': "(13, 'denied')", 'KwOnly': "(reason='why')", 'ZeroOrCode': "(5, 'boom')",
              'ClassDefault': "(5,)", 'NewNeedsArg': "(7,)",
+             'Abort': "('stop', 4)", 'Cancelled': "('tok',)", 'Nursery': "('nursery', [ValueError(1), KeyError('k')])",
              'NewValidates': "(5,)", 'TaskErrors': "('tasks failed', [ValueError(1), KeyError('k')])", 'NotFound': "('gone',)"}
 
 
@@ -171,6 +193,12 @@ def public_attrs(e):
   return out
 
 
+def snapshot(e):
+  """what 'untouched' is judged on, besides identity: class, message, args, notes, public attributes"""
+  return {'class': type(e).__qualname__, 'str': str(e), 'args': repr(getattr(e, 'args', None)),
+          'notes': repr(getattr(e, '__notes__', None)), 'attrs': repr(sorted(public_attrs(e).items(), key=lambda kv: kv[0]))}
+
+
 def slot_attrs(cls):
   """attribute names backed by C slots / __slots__ somewhere in the MRO (data descriptors on the type)"""
   out = []
@@ -187,10 +215,37 @@ class ExcEngine(Engine):
   run_fn = 'ExcProxy.run'
 
   def budget(self, tier):
-    return 0
+    return 60 if tier == 'quick' else 1500
+
+  # leaves of generated exception-group trees (python source, evaluated next to USER_CLASSES)
+  EXC_LEAVES = ("ValueError(1)", "KeyError('k')", "OSError(5, 'io')", "NeedsArgs(7, 'boom')", "TypeError('t')",
+                "StopIteration(4)", "CustomStr('v')")
+  BASE_LEAVES = ("KeyboardInterrupt()", "SystemExit(3)", "GeneratorExit()", "Abort('stop', 4)", "Cancelled('tok')",
+                 "BaseException('b')")
+
+  def group_tree(self, rng, base_leaf, depth=0):
+    """source of a group; base_leaf: the tree holds at least one non-Exception leaf (then it is not an Exception)"""
+    n = rng.randint(1, 3)
+    where = rng.randrange(n) if base_leaf else -1
+    kids = []
+    for i in range(n):
+      if depth < 2 and rng.random() < 0.35:
+        kids.append(self.group_tree(rng, i == where, depth + 1))
+      elif i == where:
+        kids.append(rng.choice(self.BASE_LEAVES))
+      else:
+        kids.append(rng.choice(self.EXC_LEAVES))
+    ctor = 'BaseExceptionGroup' if base_leaf or rng.random() < 0.5 else 'ExceptionGroup'
+    return "%s('g%d', [%s])" % (ctor, depth, ', '.join(kids))
 
   def corpus(self):
     cases = []
+    # groups that are NOT Exceptions (a non-Exception leaf, directly or nested), as a task runner raises them
+    for args in ("('unhandled errors in a TaskGroup', [ValueError('worker 1 failed'), KeyboardInterrupt()])",
+                 "('tg', [ExceptionGroup('inner', [OSError(5, 'io')]), Abort('stop')])",
+                 "('tg', [BaseExceptionGroup('inner', [SystemExit(3)])])"):
+      for depth, via_ref in ((1, False), (2, False), (3, True)):
+        cases.append({'cls': 'BaseExceptionGroup', 'user': False, 'depth': depth, 'via_ref': via_ref, 'args': args})
     for name in builtin_exception_classes():
       for depth, via_ref in ((1, False), (2, False), (3, True)):
         cases.append({'cls': name, 'user': False, 'depth': depth, 'via_ref': via_ref})
@@ -217,8 +272,32 @@ class ExcEngine(Engine):
     return cases
 
   def gen(self, rng, tier):
-    names = builtin_exception_classes()
-    return {'cls': rng.choice(names), 'user': False, 'depth': rng.randint(1, 3), 'via_ref': rng.random() < 0.5}
+    case = {'depth': rng.randint(1, 3), 'via_ref': rng.random() < 0.5}
+    r = rng.random()
+    if r < 0.6:
+      # an exception-group tree; with a non-Exception leaf anywhere the group is not an Exception
+      src = self.group_tree(rng, rng.random() < 0.6)
+      ctor, args = src.split('(', 1)
+      case.update(cls=ctor, user=False, args='(' + args)
+      if rng.random() < 0.15:
+        case.update(cls='Nursery', user=True)
+    elif r < 0.8:
+      name = rng.choice(sorted(USER_ARGS))
+      case.update(cls=name, user=True)
+    else:
+      case.update(cls=rng.choice(builtin_exception_classes()), user=False)
+    if case['depth'] >= 2 and not case['via_ref'] and rng.random() < 0.2:
+      case['annotate'] = True
+    return case
+
+  def shrink(self, case):
+    for k in ('annotate', 'prior', 'brace_repr'):
+      if case.get(k):
+        yield {a: b for a, b in case.items() if a != k}
+    if case['via_ref']:
+      yield dict(case, via_ref=False)
+    if case['depth'] > 1:
+      yield dict(case, depth=case['depth'] - 1)
 
   def make(self, case):
     env = {}
@@ -237,6 +316,7 @@ class ExcEngine(Engine):
       original.extra_attribute = {'x': 1}
     except AttributeError:
       pass
+    self.before = snapshot(original)
 
     if case.get('prior'):
       # another class with the same module and qualified name went through a configurable before
@@ -361,7 +441,20 @@ class ExcEngine(Engine):
     if not isinstance(original, Exception):
       tags.append('non-Exception')
       if caught is not original:
-        fails.append(('base-exception-not-passed-through', '%s reached the caller as %r' % (case['cls'], type(caught))))
+        fails.append(('base-exception-not-passed-through', '%s %s is not an Exception but reached the caller as another object: '
+                      '%r with message %r' % (case['cls'], case.get('args', ''), caught, str(caught)[:200])))
+      else:
+        after = snapshot(caught)
+        for k in sorted(after):
+          if after[k] != self.before[k]:
+            fails.append(('base-exception-touched', '%s %s is not an Exception; its %s was %s before the call and is %s on what '
+                          'the caller catches' % (case['cls'], case.get('args', ''), k, self.before[k], after[k])))
+        tb, frames = caught.__traceback__, []
+        while tb is not None:
+          frames.append(tb.tb_frame.f_code.co_name)
+          tb = tb.tb_next
+        if 'raiser' not in frames and '_raise' not in frames:
+          fails.append(('traceback-lost', repr(frames)))
       obs = T('PassThrough')
     else:
       same_class = isinstance(caught, cls)
